@@ -33,8 +33,10 @@ type Unit struct {
 	Shards    int               `json:"shards"`
 	Optional  bool              `json:"optional"`
 	XCheck    int               `json:"xcheck"`     // cross-validate this many sampled paths per harness natively
+	XFiles    []string          `json:"xfiles"`     // harness files for the native run (default: files)
 	XFlags    []string          `json:"xflags"`     // go test flags for the native run
 	XInstr    []string          `json:"xinstrument"` // files whose atomics are scheduling points
+	ExtraFiles map[string][]string `json:"extra_files"` // other package dir -> harness files injected there
 	VirtFiles map[string]string `json:"virt_files"` // virtual file (relative to repo) -> repo file it is a copy of
 }
 
@@ -197,6 +199,20 @@ func buildOverlay(id string, u *Unit, repo string) (map[string]string, error) {
 			real = filepath.Join(wd, f) // generated
 		}
 		ov[filepath.Join(pkgDir, "zz_verif_"+filepath.Base(f))] = substPkg(real, pkgName, wd)
+	}
+	for dir, files := range u.ExtraFiles {
+		xdir := filepath.Join(repo, dir)
+		xname, err := packageName(xdir)
+		if err != nil {
+			return nil, err
+		}
+		xintr := filepath.Join(wd, fmt.Sprintf("intr_%s_%s_%d.go", u.Name, xname, os.Getpid()))
+		os.WriteFile(xintr, []byte(strings.ReplaceAll(string(tmpl), "PACKAGE", xname)), 0o644)
+		ov[filepath.Join(xdir, "zz_verif_intrinsics.go")] = xintr
+		for _, f := range files {
+			real := filepath.Join(verifRoot, "harness", id, f)
+			ov[filepath.Join(xdir, "zz_verif_"+filepath.Base(f))] = substPkg(real, xname, wd)
+		}
 	}
 	for virt, realDir := range u.RefPkgs {
 		rd := realDir
